@@ -777,6 +777,12 @@ class Result(JsonSerializable):
                 for _ in range(v):
                     r.update(i)
 
+            # The updates above re-create the accumulated values in sorted
+            # order -> restore the original lists
+            if d['accumulate_values_bool']:
+                r._value_list = d['value_list']
+                r._total_list = d['total_list']
+
         else:
             r = Result.create(name=d['name'],
                               update_type=d['update_type_code'],
